@@ -2,8 +2,14 @@ package c06
 
 import (
 	"encoding/json"
+	"fmt"
 	"os"
+	"path/filepath"
 	"testing"
+
+	"go.opentelemetry.io/collector/pdata/plog"
+	"go.opentelemetry.io/collector/pdata/pmetric"
+	"go.opentelemetry.io/collector/pdata/ptrace"
 
 	"go.opentelemetry.io/collector/verifharness/pview"
 	"go.opentelemetry.io/collector/verifharness/sig"
@@ -30,6 +36,14 @@ func TestDescribe(t *testing.T) {
 		t.Fatal(err)
 	}
 	t.Logf("check=%s signal=%s payload:\n%s", check, probe.Signal, pview.String(pview.Of(v)))
+	if check == "helper-capabilities" {
+		var s HelperScript
+		_, _ = vt.LoadReplay(p, &s)
+		s.Payload = nil
+		b, _ := json.MarshalIndent(&s, "", "  ")
+		t.Logf("script:\n%s", b)
+		return
+	}
 	if check == "graph-isolation" {
 		var s GraphScript
 		_, _ = vt.LoadReplay(p, &s)
@@ -43,4 +57,54 @@ func TestDescribe(t *testing.T) {
 	s.Payload = nil
 	b, _ := json.MarshalIndent(&s, "", "  ")
 	t.Logf("script:\n%s", b)
+}
+
+// TestMakeHelperReplays writes the curated layer-3 replays (run once by hand:
+// VT_MAKE_REPLAYS=/verif/replays/C06 go test -tags verif ./c06 -run TestMakeHelperReplays).
+func TestMakeHelperReplays(t *testing.T) {
+	dir := os.Getenv("VT_MAKE_REPLAYS")
+	if dir == "" {
+		t.Skip()
+	}
+	payload := map[string][]byte{}
+	{
+		ld := plog.NewLogs()
+		sl := ld.ResourceLogs().AppendEmpty().ScopeLogs().AppendEmpty()
+		for i := 0; i < 5; i++ {
+			sl.LogRecords().AppendEmpty().Body().SetStr(fmt.Sprintf("record %d", i))
+		}
+		payload[sig.Logs] = sig.Encode(ld)
+		td := ptrace.NewTraces()
+		ss := td.ResourceSpans().AppendEmpty().ScopeSpans().AppendEmpty()
+		for i := 0; i < 5; i++ {
+			ss.Spans().AppendEmpty().SetName(fmt.Sprintf("span %d", i))
+		}
+		payload[sig.Traces] = sig.Encode(td)
+		md := pmetric.NewMetrics()
+		m := md.ResourceMetrics().AppendEmpty().ScopeMetrics().AppendEmpty().Metrics().AppendEmpty()
+		m.SetName("g")
+		for i := 0; i < 5; i++ {
+			m.SetEmptyGauge().DataPoints().AppendEmpty().SetIntValue(int64(i))
+		}
+		g := m.Gauge()
+		for i := 0; i < 4; i++ {
+			g.DataPoints().AppendEmpty().SetIntValue(int64(10 + i))
+		}
+		payload[sig.Metrics] = sig.Encode(md)
+	}
+	for _, s := range sig.Three {
+		for _, shape := range []string{"same-pipeline", "two-pipelines"} {
+			for name, e := range map[string]HExp{
+				"split-only-queue-batch": {Caps: "false", Queue: true, Batch: "max", Sizer: "items", Max: 2, FlushMS: 5, Consumers: 1},
+				"min-only-queue-batch":   {Caps: "false", Queue: true, Batch: "min", Sizer: "items", Min: 7, FlushMS: 5, Consumers: 1},
+				"legacy-batcher-max":     {Caps: "false", Legacy: "max", Max: 2, FlushMS: 5},
+			} {
+				sc := HelperScript{Signal: s, Payload: payload[s], Sends: 2, Exp: e, Shape: shape}
+				b, _ := json.MarshalIndent(map[string]any{"property": "C06", "check": "helper-capabilities", "script": &sc}, "", " ")
+				if err := os.WriteFile(filepath.Join(dir, fmt.Sprintf("l-helper-%s-%s-%s.json", name, shape, s)), b, 0o644); err != nil {
+					t.Fatal(err)
+				}
+			}
+		}
+	}
 }
